@@ -49,7 +49,7 @@ OPS = tuple(p + o for p in ("sm_", "smr_") for o in BASE_OPS)
 LEAN = ["Ymq.Props.C14Small"]
 AUDIT = "Ymq.Audit.C14Small"
 # >>>>>>>>>> PLACEHOLDER: space separated names of the theorems of namespace Ymq.C14Small (to be filled in) <<<<<<<<<<
-THEOREM_NAMES = ("rank_spec rank_profile_independent pseudoinverse_spec pseudoinverse_no_panic pseudoinverse_sound submatrix_spec pipeline_spec rank_reverse_spec inverse_spec inverse_some_iff inverse_profile_independent transpose_spec mask_spec reverse_spec symmetric_spec identity_spec genblock_never_ends genblock_accepts mul_aab_opt_spec gram_rank_le_cube genblock_never_ends_hang_rule genblock_never_ends_low_rank genblock_never_ends_witness rank_not_greedy pseudoinverse_unmasked_counterwitness pipeline_nonsymmetric_counterwitness")
+THEOREM_NAMES = ("rank_spec rank_profile_independent pseudoinverse_spec pseudoinverse_no_panic pseudoinverse_sound submatrix_spec pipeline_spec rank_reverse_spec inverse_spec inverse_some_iff inverse_profile_independent transpose_spec mask_spec reverse_spec symmetric_spec identity_spec genblock_never_ends genblock_accepts mul_aab_opt_spec gram_rank_le_cube genblock_never_ends_hang_rule genblock_never_ends_low_rank genblock_never_ends_witness lanczos_step_no_panic_release lanczos_step_checked_orthogonal rank_not_greedy pseudoinverse_unmasked_counterwitness pipeline_nonsymmetric_counterwitness")
 THEOREMS = ["Ymq.C14Small." + t for t in THEOREM_NAMES.split()]
 
 N = 64
@@ -1233,12 +1233,17 @@ MODELLED = [
     "the selection of a non-degenerate subblock in kernel_lanczos (lines 203-239: rank / rank_reverse, mask, pseudoinverse, debug_assert on the "
     "rank), mul_aab_opt (322-335) and genblock (337-352) with the blocks drawn by thread_rng as an input stream recorded by the hook "
     "verif_hooks_small::record_genblock: Ymq/Model/Gf2Genblock.lean",
+    "the initial block (lines 141-158) and ONE iteration of the main loop of kernel_lanczos (lines 162-247) exactly as the code computes it: "
+    "next = A*W_last ^ V_last, av = A*next, the projections on the earlier blocks with the purge of consumed blocks (mask == 0), the Gram "
+    "matrix, rank / rank_reverse on every 2nd block, the exit on rk == 0, W = next & mask, pseudo-inverse of the masked Gram matrix, update of "
+    "Y by Block::muladd, every debug_assert! as a panic site of the checked profile; the loop with fuel replays real runs from the block "
+    "returned by genblock, iteration by iteration against the hook record (mask, W_i, Y): Ymq/Model/Gf2Lanczos.lean",
 ]
 UNMODELLED = [
-    "the main loop of kernel_lanczos around the call site (Block::muladd, the projections on earlier blocks, the purge of old blocks, the exit "
-    "on rk == 0) is not modelled: lanczos_final holds for EVERY block Y; the random generator of genblock (rand::thread_rng, try_fill) is an "
-    "input stream of the model, its distribution and hence the termination of genblock are outside the model (a block with a Gram matrix of "
-    "rank 64 exists iff rank((B^T B)^3) >= 64; the harness stops the loop after 8 draws)",
+    "the random generator of genblock (rand::thread_rng, try_fill) is an input stream of the model: its distribution, hence the probability-1 "
+    "termination of genblock when rank((B^T B)^3) >= 64 and the existence of an admissible block in that case, are outside the model (the "
+    "harness stops the loop after 8 draws); the number of iterations of the main loop and the verbose messages are not specified; that the "
+    "A-orthogonality assertions of the checked profile hold on every reachable state (the induction of block Lanczos) is sampled, not proved",
     "the rotation trick of muladd (&SmallMat * &SmallMat, &Block * &SmallMat) is compared with the defining sum by sm_mul only (not proved)",
     "behaviour of pseudoinverse / submatrix / the call site outside their documented domain (input not null outside S x S, not symmetric) has "
     "no specification: the oracle accepts any answer there, K still compares it with the model in both profiles",
@@ -1271,8 +1276,13 @@ CLAIM = ("Lean theorems, for EVERY size n (the code has n = 64; n <= 256 where t
          "model: with rank((B^T B)^3) < 64 EVERY stream of blocks is refused without panic and the loop never ends "
          "(genblock_never_ends_hang_rule; corollary rank(B) < 64: genblock_never_ends_low_rank; witness: the 64 x 2 matrix with two columns "
          "e0, genblock_never_ends_witness); counter-witnesses outside the domain (symmetric but unmasked input: unwrap panic in both "
-         "profiles; non-symmetric matrix at the call site: wrong answer in release, assertion in checked). NOT proved: the converse of the "
-         "hang rule (an admissible block exists when rank((B^T B)^3) >= 64: classification of symmetric bilinear forms over GF(2)).")
+         "profiles; non-symmetric matrix at the call site: wrong answer in release, assertion in checked); one iteration of the main loop of "
+         "kernel_lanczos reaches no panic site of the release profile on a well-formed state and leaves a well-formed state "
+         "(lanczos_step_no_panic_release, through the symmetry of the Gram matrix and Montgomery's lemma), and a returning iteration of the "
+         "checked profile has asserted W^T A Y = 0 for the new block and the rank selection of the new pseudo-inverse "
+         "(lanczos_step_checked_orthogonal). NOT proved: the converse of the hang rule (an admissible block exists when rank((B^T B)^3) >= 64: "
+         "classification of symmetric bilinear forms over GF(2)); that the A-orthogonality assertions of the checked profile never fail "
+         "(sampled by K on every iteration of real runs and checked pairwise by the oracle).")
 LEVEL_NOTE = ("The theorems are about the model; the K stream ties it to the code in both profiles (sm_* against the checked build, smr_* "
               "against the release build, panics included); genblock is tied through the recorded stream of random blocks. The Python oracle "
               "judges every implementation answer inside the documented domains by its own elimination.")
